@@ -145,6 +145,24 @@ def handle : Handler := fun op args =>
     else none
   -- a sequence of calls on one checker / one transaction object: `l:idx:ht` (`_signature_hash`) or `w:idx:ht`
   -- (`_signature_for_hash_type_segwit`); the model is a function, so every call is evaluated on its own
+  -- one object edited in place between two groups of calls: each answer is the digest of the transaction as it is then
+  | "c04_seq2", [c, tx1, us1, tx2, us2, script, calls1, calls2] => do
+    let c ← parseCoin? c
+    let tx1 ← parseTx? tx1; let us1 ← parseUnspents? us1; let tx2 ← parseTx? tx2; let us2 ← parseUnspents? us2
+    let script ← parseBytes? script
+    let run := fun (tx : _) (us : _) (calls : String) => (calls.splitOn ",").mapM fun call =>
+      match call.splitOn ":" with
+      | [k, idx, ht] => do
+        let idx ← parseNat? idx; let ht ← parseNat? ht
+        let r ← (if k = "l" then some (signatureHash c tx us script idx ht)
+                 else if k = "w" then some (segwitSignatureHash c tx us script idx ht) else none)
+        match r with
+        | .ok n => some (hex64 n)
+        | .error e => some ("!" ++ e.tag)
+      | _ => none
+    let r1 ← run tx1 us1 calls1
+    let r2 ← run tx2 us2 calls2
+    some ("ok " ++ ";".intercalate (r1 ++ r2))
   | "c04_seq", [c, tx, us, script, calls] => do
     let c ← parseCoin? c
     let tx ← parseTx? tx; let us ← parseUnspents? us; let script ← parseBytes? script
